@@ -9,6 +9,7 @@ import (
 	"testing"
 	"time"
 
+	sdkmath "cosmossdk.io/math"
 	sdk "github.com/cosmos/cosmos-sdk/types"
 	"github.com/cosmos/cosmos-sdk/types/query"
 	authtypes "github.com/cosmos/cosmos-sdk/x/auth/types"
@@ -20,6 +21,7 @@ import (
 	stakingtypes "github.com/cosmos/cosmos-sdk/x/staking/types"
 
 	simapp "github.com/provenance-io/provenance/app"
+	markertypes "github.com/provenance-io/provenance/x/marker/types"
 	"github.com/provenance-io/provenance/x/quarantine"
 	"github.com/provenance-io/provenance/x/sanction"
 )
@@ -34,11 +36,24 @@ const (
 	c06GovMin  = 1000 // gov MinDeposit, bond denom (denom A)
 	c06GovMinB = 20   // gov MinDeposit, second deposit denom (denom B)
 	c06DenomB  = "bbbcoin"
-	c06NUsers  = 5    // universe ids 0..4 = plain accounts
+	c06NUsers  = 5    // universe ids 0..4 = plain accounts (id 3 = a 32-byte address extending id 2's 20 bytes)
 	c06IDGov   = 5    // universe id 5 = gov module account  (unsanctionable)
 	c06IDQuar  = 6    // universe id 6 = quarantine funds holder (unsanctionable)
+	c06NProt   = 5    // universe ids 5..9 = protected accounts (gov, quarantine holder, fee collector, bonded pool, marker module)
+	c06ExpMin  = 5 * c06GovMin // gov ExpeditedMinDeposit (bond denom only)
 	c06T0      = int64(1_700_000_000)
 )
+
+// the protected accounts of the universe, in id order
+func c06Protected() []sdk.AccAddress {
+	return []sdk.AccAddress{
+		authtypes.NewModuleAddress(govtypes.ModuleName),
+		authtypes.NewModuleAddress(quarantine.ModuleName),
+		authtypes.NewModuleAddress(authtypes.FeeCollectorName),
+		authtypes.NewModuleAddress(stakingtypes.BondedPoolName),
+		authtypes.NewModuleAddress(markertypes.ModuleName),
+	}
+}
 
 type c06Env struct {
 	t       *testing.T
@@ -48,6 +63,8 @@ type c06Env struct {
 	valAddr string
 	voter   sdk.AccAddress
 	govAddr sdk.AccAddress
+	// tally thresholds of the gov params in permille
+	thr, expThr, veto int64
 }
 
 type c06Hist struct {
@@ -58,6 +75,8 @@ type c06Hist struct {
 	// generator-side mirror, only used to pick mostly valid operations
 	proposer map[uint64]int
 	lastObs  c06Obs
+	govMinB  int64 // denom-B component of the gov MinDeposit of this history (0 = denom B is not a deposit denom)
+	dp       int64 // gov MaxDepositPeriod as last set
 }
 
 type c06Obs struct {
@@ -66,6 +85,7 @@ type c06Obs struct {
 	perm  []int
 	temps [][3]int64 // addr id, proposal id, 1 = sanction / 0 = unsanction
 	live  []uint64
+	pinfo [][3]int64 // proposal id, 1 = in voting period, 1 = expedited (live proposals)
 	bals  []int64
 	deps  [][3]int64 // proposal id, total deposit A, total deposit B (live proposals)
 	balsb []int64
@@ -139,6 +159,14 @@ func (h *c06Hist) observe(ok bool) c06Obs {
 	err = e.app.GovKeeper.Proposals.Walk(h.ctx, nil, func(id uint64, p govv1.Proposal) (bool, error) {
 		if p.Status == govv1.StatusDepositPeriod || p.Status == govv1.StatusVotingPeriod {
 			o.live = append(o.live, id)
+			var vot, exp int64
+			if p.Status == govv1.StatusVotingPeriod {
+				vot = 1
+			}
+			if p.Expedited {
+				exp = 1
+			}
+			o.pinfo = append(o.pinfo, [3]int64{int64(id), vot, exp})
 			td := sdk.NewCoins(p.TotalDeposit...)
 			if len(td) > 2 || (len(td) == 2 && (td.AmountOf(e.bond).IsZero() || td.AmountOf(c06DenomB).IsZero())) {
 				e.t.Fatalf("deposit in an unexpected denom: %s", td)
@@ -196,20 +224,23 @@ func (o c06Obs) coq() string {
 	for i, b := range o.bals {
 		bals = append(bals, fmt.Sprintf("(%d%%N, %s)", i, zI64(b)))
 	}
-	var balsb, deps []string
+	var balsb, deps, pinfo []string
+	for _, pi := range o.pinfo {
+		pinfo = append(pinfo, fmt.Sprintf("(%d%%N, (%s, %s))", pi[0], coqBool(pi[1] == 1), coqBool(pi[2] == 1)))
+	}
 	for i, b := range o.balsb {
 		balsb = append(balsb, fmt.Sprintf("(%d%%N, %s)", i, zI64(b)))
 	}
 	for _, d := range o.deps {
 		deps = append(deps, fmt.Sprintf("(%d%%N, %s)", d[0], pair2(d[1], d[2])))
 	}
-	return fmt.Sprintf("{| o_ok := %s; o_sanct := %s; o_perm := %s; o_temps := %s; o_live := %s; o_deps := %s; o_bals := %s; o_balsb := %s; o_smin := %s; o_umin := %s |}",
-		coqBool(o.ok), nList(o.sanct), nList(o.perm), coqList(temps), coqList(live), coqList(deps), coqList(bals), coqList(balsb),
+	return fmt.Sprintf("{| o_ok := %s; o_sanct := %s; o_perm := %s; o_temps := %s; o_live := %s; o_pinfo := %s; o_deps := %s; o_bals := %s; o_balsb := %s; o_smin := %s; o_umin := %s |}",
+		coqBool(o.ok), nList(o.sanct), nList(o.perm), coqList(temps), coqList(live), coqList(pinfo), coqList(deps), coqList(bals), coqList(balsb),
 		pair2(o.smin[0], o.smin[1]), pair2(o.umin[0], o.umin[1]))
 }
 
 func (o c06Obs) json() map[string]any {
-	return map[string]any{"ok": o.ok, "sanctioned": o.sanct, "permanent": o.perm, "temporary": o.temps, "live_proposals": o.live,
+	return map[string]any{"ok": o.ok, "sanctioned": o.sanct, "permanent": o.perm, "temporary": o.temps, "live_proposals": o.live, "proposal_voting_expedited": o.pinfo,
 		"total_deposits": o.deps, "balances": o.bals, "balances_b": o.balsb, "immediate_sanction_min": o.smin, "immediate_unsanction_min": o.umin}
 }
 
@@ -273,9 +304,11 @@ func (h *c06Hist) setGovPeriods(dp, vp int64) {
 	if err != nil {
 		h.e.t.Fatal(err)
 	}
-	d, v := time.Duration(dp)*time.Second, time.Duration(vp)*time.Second
+	d, v, ev := time.Duration(dp)*time.Second, time.Duration(vp)*time.Second, time.Duration(vp/2)*time.Second
 	gp.MaxDepositPeriod = &d
 	gp.VotingPeriod = &v
+	gp.ExpeditedVotingPeriod = &ev // convention of the model: half the voting period
+	h.dp = dp
 	if err := h.e.app.GovKeeper.Params.Set(h.ctx, gp); err != nil {
 		h.e.t.Fatal(err)
 	}
@@ -299,15 +332,19 @@ type c06Op struct {
 }
 
 func opSubmit(h *c06Hist, who int, ms []c06Msg, dep, dp, vp int64) c06Op {
-	return opSubmit2(h, who, ms, dep, 0, dp, vp)
+	return opSubmit3(h, who, ms, dep, 0, dp, vp, false)
 }
 
 func opSubmit2(h *c06Hist, who int, ms []c06Msg, dep, depB, dp, vp int64) c06Op {
+	return opSubmit3(h, who, ms, dep, depB, dp, vp, false)
+}
+
+func opSubmit3(h *c06Hist, who int, ms []c06Msg, dep, depB, dp, vp int64, expedited bool) c06Op {
 	var mt []string
 	for _, m := range ms {
 		mt = append(mt, m.coq())
 	}
-	term := fmt.Sprintf("OSubmit %d%%N %s %s %s %s", who, coqList(mt), pair2(dep, depB), zI64(dp), zI64(vp))
+	term := fmt.Sprintf("OSubmit %d%%N %s %s %s %s %s", who, coqList(mt), pair2(dep, depB), zI64(dp), zI64(vp), coqBool(expedited))
 	return c06Op{term: term, desc: term, kind: "submit", run: func(h *c06Hist) bool {
 		h.setGovPeriods(dp, vp)
 		var msgs []sdk.Msg
@@ -319,7 +356,7 @@ func opSubmit2(h *c06Hist, who int, ms []c06Msg, dep, depB, dp, vp int64) c06Op 
 			h.e.t.Fatal(err)
 		}
 		return h.apply(func(ctx sdk.Context) error {
-			msg, err := govv1.NewMsgSubmitProposal(msgs, h.coins2(dep, depB), h.addrs[who].String(), "", "c06 title", "c06 summary", false)
+			msg, err := govv1.NewMsgSubmitProposal(msgs, h.coins2(dep, depB), h.addrs[who].String(), "", "c06 title", "c06 summary", expedited)
 			if err != nil {
 				return err
 			}
@@ -337,23 +374,47 @@ func opDeposit(who int, pid uint64, amt, vp int64) c06Op { return opDeposit2(who
 func opDeposit2(who int, pid uint64, amt, amtB, vp int64) c06Op {
 	term := fmt.Sprintf("ODeposit %d%%N %d%%N %s %s", who, pid, pair2(amt, amtB), zI64(vp))
 	return c06Op{term: term, desc: term, kind: "deposit", run: func(h *c06Hist) bool {
-		gp, _ := h.e.app.GovKeeper.Params.Get(h.ctx)
-		h.setGovPeriods(int64(gp.MaxDepositPeriod.Seconds()), vp)
+		h.setGovPeriods(h.dp, vp)
 		return h.apply(func(ctx sdk.Context) error {
 			return c06Deliver(h.e.app, ctx, govv1.NewMsgDeposit(h.addrs[who], pid, h.coins2(amt, amtB)))
 		})
 	}}
 }
 
+// a ballot: weights of Yes, Abstain, No, NoWithVeto in permille
+type c06Ballot [4]int64
+
+var (
+	c06Yes     = c06Ballot{1000, 0, 0, 0}
+	c06Abstain = c06Ballot{0, 1000, 0, 0}
+	c06No      = c06Ballot{0, 0, 1000, 0}
+	c06Veto    = c06Ballot{0, 0, 0, 1000}
+)
+
 func opVote(pid uint64, yes bool) c06Op {
-	term := fmt.Sprintf("OVote %d%%N %s", pid, coqBool(yes))
+	if yes {
+		return opBallot(pid, c06Yes)
+	}
+	return opBallot(pid, c06No)
+}
+
+func opBallot(pid uint64, b c06Ballot) c06Op {
+	term := fmt.Sprintf("OVote %d%%N (%s, %s, %s, %s)", pid, zI64(b[0]), zI64(b[1]), zI64(b[2]), zI64(b[3]))
 	return c06Op{term: term, desc: term, kind: "vote", run: func(h *c06Hist) bool {
-		opt := govv1.OptionNo
-		if yes {
-			opt = govv1.OptionYes
-		}
+		opts := []govv1.VoteOption{govv1.OptionYes, govv1.OptionAbstain, govv1.OptionNo, govv1.OptionNoWithVeto}
 		return h.apply(func(ctx sdk.Context) error {
-			return c06Deliver(h.e.app, ctx, govv1.NewMsgVote(h.e.voter, pid, opt, ""))
+			for i, w := range b {
+				if w == 1000 && b[0]+b[1]+b[2]+b[3] == 1000 {
+					return c06Deliver(h.e.app, ctx, govv1.NewMsgVote(h.e.voter, pid, opts[i], ""))
+				}
+			}
+			var ws govv1.WeightedVoteOptions
+			for i, w := range b {
+				if w != 0 {
+					ws = append(ws, &govv1.WeightedVoteOption{Option: opts[i], Weight: sdkmath.LegacyNewDecWithPrec(w, 3).String()})
+				}
+			}
+			return c06Deliver(h.e.app, ctx, govv1.NewMsgVoteWeighted(h.e.voter, pid, ws, ""))
 		})
 	}}
 }
@@ -367,12 +428,15 @@ func opCancel(who int, pid uint64) c06Op {
 	}}
 }
 
-func opNewBlock(t int64) c06Op {
-	term := fmt.Sprintf("ONewBlock %s", zI64(t))
+func opNewBlock(t int64) c06Op { return opNewBlockVP(t, 250) }
+
+func opNewBlockVP(t, vp int64) c06Op {
+	term := fmt.Sprintf("ONewBlock %s %s", zI64(t), zI64(vp))
 	return c06Op{term: term, desc: term, kind: "newblock", run: func(h *c06Hist) bool {
+		h.setGovPeriods(h.dp, vp)
 		ok := h.apply(func(ctx sdk.Context) error { return gov.EndBlocker(ctx, &h.e.app.GovKeeper) })
-		// an EndBlocker error would halt the chain; it is recorded as a rejected step (the
-		// property checker flags it) and the history goes on
+		// an EndBlocker error or panic would halt the chain; it is recorded as a rejected step (the
+		// property checker flags it: prop:governance end blocker failed) and the history goes on
 		h.now = t
 		h.ctx = h.ctx.WithBlockTime(time.Unix(t, 0).UTC()).WithBlockHeight(h.ctx.BlockHeight() + 1)
 		return ok
@@ -483,7 +547,7 @@ func (h *c06Hist) randAddrs(r *rand.Rand) []int {
 	for len(out) < n {
 		var a int
 		if r.Intn(9) == 0 {
-			a = c06IDGov + r.Intn(2) // a protected address
+			a = c06IDGov + r.Intn(c06NProt) // a protected address
 		} else {
 			a = r.Intn(c06NUsers)
 		}
@@ -518,7 +582,8 @@ func (h *c06Hist) depositAmountB(r *rand.Rand) int64 {
 		return 0
 	}
 	s, u := h.lastObs.smin[1], h.lastObs.umin[1]
-	v := pick64(r, 1, 5, s-1, s, s+1, u-1, u, u+1, c06GovMinB-1, c06GovMinB, c06GovMinB, c06GovMinB+1, 40, 70)
+	g := h.govMinB
+	v := pick64(r, 1, 5, s-1, s, s+1, u-1, u, u+1, g-1, g, g, g+1, 40, 70)
 	if v < 0 {
 		v = 0
 	}
@@ -527,7 +592,7 @@ func (h *c06Hist) depositAmountB(r *rand.Rand) int64 {
 
 func (h *c06Hist) depositAmount(r *rand.Rand) int64 {
 	s, u := h.lastObs.smin[0], h.lastObs.umin[0]
-	return pick64(r, 1, 50, 100, s-1, s, s+1, u-1, u, u+1, c06GovMin-1, c06GovMin, c06GovMin, c06GovMin, c06GovMin+1, 400, 600, 1600, s-100, u-100)
+	return pick64(r, 1, 50, 100, s-1, s, s+1, u-1, u, u+1, c06GovMin-1, c06GovMin, c06GovMin, c06GovMin, c06GovMin+1, 400, 600, 1600, s-100, u-100, c06ExpMin, c06ExpMin-1)
 }
 
 func (h *c06Hist) sender(r *rand.Rand) int {
@@ -632,7 +697,9 @@ func (h *c06Hist) randOp(r *rand.Rand) c06Op {
 		}
 		return opDeposit2(r.Intn(c06NUsers), h.livePid(r), amt, amtB, pick64(r, 100, 250, 400))
 	case x < 40:
-		return opVote(h.votingPid(r), r.Intn(3) != 0)
+		ballots := []c06Ballot{c06Yes, c06Yes, c06Yes, c06Yes, c06No, c06No, c06Abstain, c06Veto, {600, 0, 400, 0}, {600, 0, 400, 0}, {500, 0, 500, 0}, {400, 300, 300, 0},
+			{600, 0, 0, 400}, {670, 0, 0, 330}, {500, 0, 166, 334}, {334, 0, 166, 500}, {700, 0, 200, 100}, {667, 0, 333, 0}, {668, 0, 332, 0}, {1, 999, 0, 0}, {500, 0, 400, 0}}
+		return opBallot(h.votingPid(r), ballots[r.Intn(len(ballots))])
 	case x < 45:
 		pid := h.livePid(r)
 		who, ok := h.proposer[pid]
@@ -641,7 +708,7 @@ func (h *c06Hist) randOp(r *rand.Rand) c06Op {
 		}
 		return opCancel(who, pid)
 	case x < 60:
-		return opNewBlock(h.now + pick64(r, 30, 50, 100, 150, 300))
+		return opNewBlockVP(h.now+pick64(r, 30, 50, 100, 150, 300), pick64(r, 100, 250, 400))
 	case x < 65:
 		return opDirect(h, r.Intn(2) == 0, h.randMsg(r), r.Intn(c06NUsers))
 	case x < 77:
